@@ -44,7 +44,7 @@ func RunSemaphore(c *sim.Ctx) {
 		at = uniqueAt(at, gap, len(c.Trace.Ops))
 		k := []string{"acquire", "try", "release", "terminate"}[c.PickW("op", []int{10, 3, 8, 1})]
 		num, size := c.Int("num", 0, capNum+2), c.Int("size", 0, capSize/10+2)*10
-		timeout := []int{1, 100, 1000, 3000, 10000}[c.Pick("timeout", 5)] // 0 would make the deadline equal to the frozen fake 'now'
+		timeout := []int{0, 1, 100, 1000, 3000, 10000}[c.Pick("timeout", 6)] // 0: "do not wait" (the deadline is the current fake instant)
 		return sim.Op{K: k, A: []int64{int64(at), int64(num), int64(size), int64(timeout)}}, true
 	}
 	for {
